@@ -63,6 +63,26 @@ def withdraw_rule(rep, r1, m, SIG, only=None):
             r1.ok()
 
 
+def timer_awaitable_clause(rep, r5, m):
+    """The timer wake-up removes the tag of the timer that fired, by the handle of the current event (shared:
+    R-C04-5, R-C10-12)."""
+    hd = m.need("cmb_process_hold")
+    wt = m.need(m.resolve(hd.unit, "wakeup_event_time"))
+    wx = FuncCtx(m, wt)
+    ra = [c for c in walk(wt.body) if c["kind"] == "CallExpr" and callee_ref(c) == "cmi_process_remove_awaitable"]
+    okw = len(ra) == 1 and [wx.canon(z) for z in kids(ra[0])[1:]] == [wt.params[0]["name"], "CMI_PROCESS_AWAITABLE_TIME",
+                                                                    "cmb_event_current()"] or \
+        (len(ra) == 1 and [wx.canon(z) for z in kids(ra[0])[1:]][:2] == [wt.params[0]["name"], "CMI_PROCESS_AWAITABLE_TIME"]
+         and "event_queue->heap[0].key" in wx.canon(kids(ra[0])[3]))
+    r5.instance("timer wake-up removes the fired timer's awaitable: %s" % okw)
+    if not okw:
+        rep.finding(r5, wt.name, "timer:awaitable", "the timer wake-up does not remove the awaitable of the timer that fired "
+                    "(by the current event handle)", where=m.rel(wt.where))
+        r5.fail()
+    else:
+        r5.ok()
+
+
 def rules(rep, m):
     SIG = common.signal_table(m)
     may_yield = m.reaches({"cmi_coroutine_transfer"})
@@ -298,20 +318,7 @@ def rules(rep, m):
             r5.fail()
         else:
             r5.ok()
-    wt = m.need(m.resolve(hd.unit, "wakeup_event_time"))
-    wx = FuncCtx(m, wt)
-    ra = [c for c in walk(wt.body) if c["kind"] == "CallExpr" and callee_ref(c) == "cmi_process_remove_awaitable"]
-    okw = len(ra) == 1 and [wx.canon(z) for z in kids(ra[0])[1:]] == [wt.params[0]["name"], "CMI_PROCESS_AWAITABLE_TIME",
-                                                                    "cmb_event_current()"] or \
-        (len(ra) == 1 and [wx.canon(z) for z in kids(ra[0])[1:]][:2] == [wt.params[0]["name"], "CMI_PROCESS_AWAITABLE_TIME"]
-         and "event_queue->heap[0].key" in wx.canon(kids(ra[0])[3]))
-    r5.instance("timer wake-up removes the fired timer's awaitable: %s" % okw)
-    if not okw:
-        rep.finding(r5, wt.name, "timer:awaitable", "the timer wake-up does not remove the awaitable of the timer that fired "
-                    "(by the current event handle)", where=m.rel(wt.where))
-        r5.fail()
-    else:
-        r5.ok()
+    timer_awaitable_clause(rep, r5, m)
     wi = m.need(m.resolve(hd.unit, "wakeup_event_interrupt"))
     wix = FuncCtx(m, wi)
     names = [callee_ref(c) for c in walk(wi.body) if c["kind"] == "CallExpr"]
